@@ -76,6 +76,10 @@ MCNext ==
        /\ UNCHANGED ncalls
     \/ /\ st.pc = "idle" /\ st' = ResetBufs(st) /\ UNCHANGED ncalls
 
+\* every call terminates: under weak fairness of the pipeline steps the resizer is idle again and again
+MCSpec == MCInit /\ [][MCNext]_mcvars /\ WF_mcvars(MCNext)
+Terminates == []<>(st.pc = "idle")
+
 \* evaluated when a call has just returned
 AtReturn == (st.pc = "idle" /\ st.c.kind # "none") => CallOK(st)
 \* a call in progress can always take a step (the pipeline never gets stuck)
